@@ -40,7 +40,8 @@ struct Branch {
 
 fn branch(rng: &mut Rng, q: V, fresh: &mut V) -> Branch {
     let c = T::Int(rng.range(1, 9));
-    match rng.below(17) {
+    match rng.below(18) {
+        17 => Branch { goals: vec![], kind: "finite-empty" },
         15 => Branch { goals: vec![G::Dfs(vec![vec![G::RecCall(3, vec![v(q)])]])], kind: "diverger-dfs-block" },
         16 => Branch { goals: vec![G::Eq(v(q), c), G::Dfs(vec![vec![G::RecCall(1, vec![v(q)])]])], kind: "diverger-dfs-block-last" },
         13 => Branch { goals: vec![G::Fail], kind: "finite-false" },
@@ -88,7 +89,7 @@ impl Check for C07 {
         vec![GenSpec { name: "fair", quick: 15_000, thorough: 1_000_000 }]
     }
     fn rule(&self) -> &'static str {
-        "Disjunctions of 2-4 branches built with conde, match (wildcard arms) or matche, at top level, after a conjunction prefix with 1-2 answers, or nested as a branch of another disjunction (depth 2). Branches: infinite producers (loop { q == c }, [always(), q == c], a recursive closure generating lists through a fresh variable, append with fresh arguments, loop over member), silent divergers (never(), [never(), q == c], a left-recursive closure, a closure that only calls itself, a closure that recurses through a fresh block, and a bare depth-first block `dfs { <diverging relation> }` as the only or the last goal of a branch, so that a depth-first stream sits directly under the interleaving mplus) and finite goals (q == c, member over 2-7 elements, the literal false alone or at the end of a conjunction, which folds the branch to a static Fail), in every position. Bounded-progress oracle in engine steps (hook H1, logical time): every branch is first run alone from the same prefix; if it yields its j-th answer (j <= 3) within s <= 6000 engine steps, the whole disjunction must yield that answer (as a multiset over all branches, tuples up to renaming) within F = min(10^6, 64 * 2^(k*d) * (s_max + 16)) engine steps, k = number of branches, d = nesting depth. Distinct = distinct program text; non-trivial = at least one branch with an obligation AND at least one infinite or diverging sibling."
+        "Disjunctions of 2-4 branches built with conde, match (wildcard arms) or matche, at top level, after a conjunction prefix with 1-2 answers, or nested as a branch of another disjunction (depth 2). Branches: infinite producers (loop { q == c }, [always(), q == c], a recursive closure generating lists through a fresh variable, append with fresh arguments, loop over member), silent divergers (never(), [never(), q == c], a left-recursive closure, a closure that only calls itself, a closure that recurses through a fresh block, and a bare depth-first block `dfs { <diverging relation> }` as the only or the last goal of a branch, so that a depth-first stream sits directly under the interleaving mplus) and finite goals (q == c, member over 2-7 elements, the literal false alone or at the end of a conjunction, which folds the branch to a static Fail, and the EMPTY clause `[]`, which succeeds once), in every position. Bounded-progress oracle in engine steps (hook H1, logical time): every branch is first run alone from the same prefix; if it yields its j-th answer (j <= 3) within s <= 6000 engine steps, the whole disjunction must yield that answer (as a multiset over all branches, tuples up to renaming) within F = min(10^6, 64 * 2^(k*d) * (s_max + 16)) engine steps, k = number of branches, d = nesting depth. Distinct = distinct program text; non-trivial = at least one branch with an obligation AND at least one infinite or diverging sibling."
     }
     fn assumptions(&self) -> Vec<String> {
         vec![
